@@ -119,7 +119,7 @@ mem: 14
 #include "src/mem.c"
 #include "mem.h"
 
-#if DEBUG != 5
+#if DEBUG != 5 && !defined(U_ANYDEBUG)
 # error "C15 table units are compiled against the DEBUG 5 shadow config.h"
 #endif
 
